@@ -63,16 +63,17 @@ fn run_spelled_g<C: Codec>(c: &Case, trace: bool) -> RunOut {
     let canon = refcodec::ref_encode(a, c.fam, &Style::default()).bytes;
     out.nontrivial = enc != canon;
     out.evals = 1;
-    // it is a valid encoding as far as this property is concerned when every front-end decodes the
-    // whole of it to one and the same packet (whether it *should* be accepted is C04's business)
-    let whole = Rc::new(enc.clone());
-    let b0 = fe_block::<C>(&whole);
-    let p0 = run_p::<C>(&whole, &[], 0, &[], &[], false, trace, &mut out);
-    let Some(pkt) = b0.pkt().cloned() else { return out };
-    if p0.fe.pkt() != Some(&pkt) {
+    // it is a valid encoding by the reference grammar (a legal spelling of a valid packet); whether
+    // the decoders accept the *whole* of it is C04's business, its strict prefixes are ours
+    if refcodec::ref_decode(c.fam, &enc).is_err() {
         return out;
     }
-    out.probe("spelled-form-accepted");
+    let whole = Rc::new(enc.clone());
+    if fe_block::<C>(&whole).pkt().is_some() {
+        out.probe("spelled-form-accepted");
+    } else {
+        out.probe("spelled-form-not-accepted");
+    }
     let len = enc.len();
     let cuts: Vec<usize> = if len <= 2048 { (0..len).collect() } else { (0..64).chain(len - 64..len).collect() };
     for k in cuts {
